@@ -119,9 +119,12 @@ func TestProp(t *testing.T) {
 		}
 	}
 	gen(nil)
+	if !env.Thorough() {
+		gapPatterns = gapPatterns[:5] // quick: five of the eight gap patterns (the thorough tier runs all)
+	}
 	per := len(seqs) * len(gapPatterns)
 	nA := per * len(points)
-	nB := env.Pick(400, 12000)
+	nB := env.Pick(300, 12000)
 
 	if only, skip := env.Only("c05-enum"); !skip {
 		vh.ForEach(nA, 0, only, func(i int) {
